@@ -35,6 +35,13 @@ Theorem C06_usage_exit_two : forall q cmd c, usage_outcome q cmd c = spec_outcom
 Proof. exact usage_exit_two. Qed.
 Print Assumptions C06_usage_exit_two.
 
+(* ... among the classes: an integer-valued threshold option of a command (--max-depth, --max-methods, --max-loc, --min-lines, --min-continues:
+   Gen threshold_options, read from the click declarations) given a value that is not positive ends with exit 2, a positive one lets the run be performed *)
+Theorem C06_threshold_option : forall q cmd v,
+  usage_outcome q cmd (UThreshold v) = if (v <=? 0)%Z then OExit 2 else OPerformed.
+Proof. intros q cmd v. exact (usage_exit_two q cmd (UThreshold v)). Qed.
+Print Assumptions C06_threshold_option.
+
 (* 3. JSON: decoding the document gives back every violation (strings as the sanitiser shows them), in order,
       and `total` is their number. *)
 Theorem C06_json_roundtrip : forall vs,
